@@ -6,7 +6,7 @@
    Not proved (checked by running the extracted [valid_message] on the real bytes of every
    generated program): that all reachable builder states satisfy [valid_message = VOk]. *)
 From CV Require Import Core.Builder Core.ReaderFacts Core.ArithFacts Core.BuilderFacts Core.AllocProofs
-  Core.WritePtrProofs Core.HeapProofs Core.BuildOps Core.BuildValid Core.BuildExamples.
+  Core.WritePtrProofs Core.HeapProofs Core.BuildOps Core.BuildValid Core.BuildExamples Core.BuildInv.
 Open Scope Z_scope.
 
 Theorem C05_alloc_zeroed_aligned_in_cap : forall m sid sz m' sid' addr,
@@ -76,6 +76,29 @@ Theorem C05_pointer_resolves : forall w dsid off tsid taddr raw w',
                          else mem (w_dst w) i) ++ t).
 Proof. exact place_resolves. Qed.
 Print Assumptions C05_pointer_resolves.
+
+(* heap_inv over op lists (segment-level part): for every arena configuration, every op list
+   whose arguments are in the ranges of the Go types and every state the interpreter reaches,
+   the handle pool is sound and every segment of the message under construction is a whole
+   number of words inside its capacity - the first rule of [valid_message] holds on every
+   reachable state *)
+Theorem C05_heap_inv_partial : forall a cfgd cfgs ncaps fuel src ops m,
+  arena_spec_wf a -> Forall op_wf ops -> create a (init_rlimit cfgd) = Ok m ->
+  Forall (fun st => binv st /\
+            forallb (fun s => zlen s mod 8 =? 0) (bm_data (w_dst (st_w st))) = true /\
+            Forall (fun s => blen s <= bs_cap s) (bm_segs (w_dst (st_w st))))
+         (bstates (mkEnv cfgd cfgs ncaps fuel) (mkBSt (mkW m src (init_rlimit cfgs)) []) ops).
+Proof. exact heap_inv_partial. Qed.
+Print Assumptions C05_heap_inv_partial.
+
+Theorem C05_step_invariant : forall e st o st' out,
+  binv st -> op_wf o -> bstep e st o = (Some st', out) -> binv st'.
+Proof. exact bstep_binv. Qed.
+Print Assumptions C05_step_invariant.
+
+(* non-vacuity: the example program is well formed *)
+Theorem C05_example_op_wf : Forall op_wf ex_prog /\ arena_spec_wf (ArRaw [32; 8]).
+Proof. split; [repeat constructor; cbn; lia|repeat constructor; lia]. Qed.
 
 (* the strict validity predicate accepts the example messages (far and double-far) and
    rejects an out-of-bounds pointer *)
